@@ -1135,7 +1135,11 @@ class BaseRequest:
             del env["webob._cache_control"]
 
     def _update_cache_control(self, prop_dict):
-        self.environ["HTTP_CACHE_CONTROL"] = serialize_cache_control(prop_dict)
+        env = self.environ
+        env["HTTP_CACHE_CONTROL"] = serialize_cache_control(prop_dict)
+        # the cached object may no longer be the parse of the text it was
+        # cached under (it, or an older object, has just been modified)
+        env["webob._cache_control"] = (None, None)
 
     cache_control = property(
         _cache_control__get,
